@@ -7,9 +7,9 @@ W = 16
 def jobs(tier):
     q = tier == "quick"
     return [
-        Job("c11_ctl", "flt-asan", "enumerate", workers=W, enum_stride=8 if q else 1, maxtime=60 if q else 600),
-        Job("c11_ctl", "flt-asan", "random", workers=W, cases=2000 if q else 40000, maxtime=60 if q else 600),
-        Job("c11_honour", "flt-asan", "random", workers=W, cases=500 if q else 10000, maxtime=60 if q else 600),
+        Job("c11_ctl", "flt-asan", "enumerate", workers=W, enum_stride=8 if q else 1, maxtime=180 if q else 1200),
+        Job("c11_ctl", "flt-asan", "random", workers=W, cases=2000 if q else 40000, maxtime=180 if q else 1200),
+        Job("c11_honour", "flt-asan", "random", workers=W, cases=500 if q else 10000, maxtime=180 if q else 1200),
         Job("c11_alloc", "flt-asan", "enumerate", workers=4, maxtime=60, link_extra=("-Wl,--wrap=malloc",)),
     ]
 
